@@ -122,4 +122,26 @@ theorem verify_with_keyring_complete (row : VGen.VersionRow) (e : Event) (sd : E
   · unfold ringBatch; rw [List.getElem?_map, hi]; rfl
   · exact hmust s hs
 
+/-- **The bulk entry point with the real key ring.**  `VerifyAllEventSignatures` hands the key ring one batch per event; if
+    the verdict at position `i` is success — the verdicts being read off the key ring's results for THAT event's batch —
+    then every server required for that event has an ed25519 signature on it verifying under a fetched key that was valid
+    at its origin_server_ts: nothing is carried over from the batches of the other events. -/
+theorem verify_all_with_keyring_sound (row : VGen.VersionRow) (es : List Event) (sd : Event → Except Err (Option Bytes))
+    (valid : Event → Signers.Request → Bool) (i : Nat) (h : i < es.length)
+    (hok : (Signers.verifyAllEventSignatures row es sd valid (fun _ => false))[i]? = some (.ok ()))
+    (l : List Bytes) (hl : Signers.requiredSigners row es[i] (sd es[i]) = .ok l)
+    (msg : Bytes → Bool × List KeyRing.SigInfo)
+    (db : KeyRing.FetchScript) (storeOk : Bool) (fetchers : List KeyRing.FetchScript) (now : Nat)
+    (rsB : List Bool) (tr : KeyRing.Trace)
+    (hrun : KeyRing.verifyJSONs (ringBatch row es[i] msg l) db storeOk fetchers now = (.ok rsB, tr))
+    (hvalid : ∀ (j : Nat) (s : Bytes), l[j]? = some s →
+      valid es[i] ⟨s, es[i].originServerTS, Signers.strictValidity row⟩ = true → rsB[j]? = some true) :
+    ∀ s ∈ l, (msg s).1 = true ∧ ∃ sig ∈ (msg s).2, KeyRing.isAlgorithmSupported sig.keyID = true ∧ ∃ k : KeyRing.KeyRes,
+      ((∃ fromDB, db = some fromDB ∧ (⟨s, sig.keyID⟩, k) ∈ fromDB) ∨ (∃ m, some m ∈ fetchers ∧ (⟨s, sig.keyID⟩, k) ∈ m)) ∧
+      KeyRing.wasValidAt k es[i].originServerTS (Signers.strictValidity row) now = true ∧
+      sig.reaches = true ∧ k.key.length = KeyRing.publicKeySize ∧ sig.verifies k.key = true := by
+  have hok' : Signers.verifyEventSignatures row es[i] (sd es[i]) (valid es[i]) false = .ok () := by
+    simpa [Signers.verifyAllEventSignatures, List.getElem?_map, List.getElem?_eq_getElem h] using hok
+  exact verify_with_keyring_sound row es[i] (sd es[i]) l hl msg db storeOk fetchers now rsB tr hrun (valid es[i]) hvalid hok'
+
 end V.C06Ring
